@@ -17,12 +17,16 @@ CANARIES = {
     'proposed-needs-definition': ('wn._export', "        if not ili and next(find_proposed_ilis(synset_rowid=rowid), None) is not None:",
                                   "        if ilidef and not ili:"),
     'precheck-off': ('wn._export', "        if all_ids.intersection(idset):", "        if all_ids.intersection(idset) and False:"),
+    'lexicon-tag-gt': ('wn.lmf', "        f'{attr}={quoteattr(str(val))}' for attr, val in attrib.items()",
+                       "        f'{attr}={quoteattr(str(val))}'.replace('&gt;', '>') for attr, val in attrib.items()"),
     'count-meta': ('wn._export', "         'meta': _export_metadata(id, 'counts')}", "         'meta': None}"),
 }
 rt.setup(canaries=CANARIES)
 
+import io  # noqa: E402
 import wn  # noqa: E402
 import wn._add as A  # noqa: E402
+from wn import lmf  # noqa: E402
 from wn import _export as X  # noqa: E402
 from vf import docs  # noqa: E402
 from vf import lmfbridge as B  # noqa: E402
@@ -241,6 +245,74 @@ def h_frame_ids(k: int) -> bool:
     return rt.verdict([s[5] for s in got] == [s[5] for s in want])
 
 
+class _FakePath:
+    FILES = {}
+
+    def __init__(self, name):
+        self.name = str(name)
+
+    def expanduser(self):
+        return self
+
+    def is_file(self):
+        return self.name in _FakePath.FILES
+
+    def open(self, mode='rb', **kw):
+        return io.BytesIO(_FakePath.FILES[self.name])
+
+    def __str__(self):
+        return self.name
+
+    def __fspath__(self):
+        return self.name
+
+
+def _fake_open(path, mode='rb', **kw):
+    return io.BytesIO(_FakePath.FILES[str(path)])
+
+
+SCAN_ATTRS = ['plain', 'A&B <c>', 'a > b', "q'\"z", 'tab\tid="no"']
+
+
+def h_scan_export(k1: int, k2: int, two: bool) -> bool:
+    """
+    pre: 0 <= k1 < 5 and 0 <= k2 < 5
+    post: _
+    """
+    # wn.add(file) decides what to add from lmf.scan_lexicons(): the scan of an exported file
+    # must name the exported lexicons (text of the hand-written start tags = real writer output)
+    lmf.Path = _FakePath
+    lmf.open = _fake_open
+    version = VERSIONS[rt.part(4)[0]]
+    vinfo = tuple(int(x) for x in version.split('.'))
+    a, b = _pick(SCAN_ATTRS, k1), _pick(SCAN_ATTRS, k2)
+    doc = docs.lexicon_small(docs.P(), 'L', tag='')
+    doc.update(label=a, email=b, license=a, url=b, citation=a)
+    rt.DB()
+    rt.stub_normalizer()
+    rt.quiet_add(docs.resource([doc], '1.1'))
+    want = [{'id': 'L', 'version': '1', 'label': a, 'extends': None}]
+    specs = ['L:1']
+    if two:
+        # several lexicons per export (the property covers non-extension lexicons only)
+        other = docs.lexicon_small(docs.P(), 'S', ver='2', tag='s')
+        other.update(label=b, email=a, license=b)
+        rt.quiet_add(docs.resource([other], '1.1'))
+        want.append({'id': 'S', 'version': '2', 'label': b, 'extends': None})
+        specs.append('S:2')
+    chunks = [lmf._XMLDECL.decode() + '\n', lmf._DOCTYPE.format(schema=lmf._SCHEMAS[version]) + '\n',
+              '<LexicalResource xmlns:dc="x">\n']
+    for spec in specs:
+        exported = X._export_lexicon(wn.lexicons(lexicon=spec)[0], vinfo)
+        B._SINK[:] = []
+        lmf._dump_lexicon({**exported, 'entries': [], 'synsets': [], 'frames': []}, B._Out(), vinfo)
+        chunks.extend(item for kind, item in list(B._SINK) if kind == 'text')
+    chunks.append('</LexicalResource>\n')
+    _FakePath.FILES = {'doc.xml': ''.join(chunks).encode('utf-8')}
+    got = lmf.scan_lexicons('doc.xml')
+    return rt.verdict(got == want)
+
+
 _F = ['wn._export._export_lexicon', '_export_lexical_entries', '_export_senses',
       '_export_sense_relations', '_export_examples', '_export_counts', '_export_synsets',
       '_export_definitions', '_export_ili_definition', '_export_synset_relations',
@@ -260,6 +332,15 @@ OBLIGATIONS = [
                 'second frame id, members, dependency url), whether an extension is installed',
        bounds='rich skeleton; partitions: export version 1.0-1.3 x source style (1.0: entry-level '
               'frames / 1.1: lexicon-level frames with subcat)'),
+    Ob('scan-of-export', 'h_scan_export', parts=4, quick=dict(timeout=200), thorough=dict(timeout=600),
+       canary=[('lexicon-tag-gt', 1)],
+       functions=['wn._export._export_lexicon', 'wn.lmf._dump_lexicon (start tag)', '_dump_dependency',
+                  'wn.lmf.scan_lexicons', '_unescape_attr'],
+       stubs=['vf.sqlmodel', 'fake file'],
+       symbolic='label / license / citation and email / url from ' + repr(SCAN_ATTRS)
+                + ', whether a second lexicon is exported as well',
+       bounds='the scan that wn.add(file) relies on names exactly the exported lexicons (id, '
+              'version, label, base), export versions 1.0-1.3'),
     Ob('unique-ids-precheck', 'h_precheck', quick=dict(timeout=120), canary=[('precheck-off', 0)],
        functions=['wn._export._precheck'], stubs=['vf.sqlmodel'],
        symbolic='whether the two lexicons reuse ids', bounds='two small lexicons'),
